@@ -208,13 +208,15 @@ impl TestRunnerAdapter {
         let runner = self.runner.clone();
         let mut runner = runner.write().unwrap();
         let result = f(&mut runner)?;
+        if report_result(&self.event_sender, &self.test_case_path, result) {
+            // (the test has ended, which is all there is to say)
+            self.is_connected.store(false, Ordering::Relaxed);
+            return Ok(());
+        }
         let pc = runner.cpu().get_program_counter();
         self.update_state(MachineRunningState::Stopped(ProgramCounter::new(
             pc as usize,
         )))?;
-        if report_result(&self.event_sender, &self.test_case_path, result) {
-            self.is_connected.store(false, Ordering::Relaxed);
-        }
         Ok(())
     }
 
